@@ -112,6 +112,7 @@ func c03Prelude() []string {
 		"deeplc = (n) -> {\n  la = n\n  lb = la\n  lc = lb\n  if n <= 0 0 else 1 + deeplc(n - 1)\n}",
 		"deepld = (n) -> {\n  la = n\n  lb = la\n  lc = lb\n  ld = lc\n  if n <= 0 0 else 1 + deepld(n - 1)\n}",
 		"evens = (m) -> for n <- fromto(0, m) if n % 2 == 0 yield n",
+		"dirty = (k) -> {\n  da = \"stale-a\"\n  db = [k, k]\n  dc = k * 11\n  dd = dc + 1\n  yield deepla(k) + dd\n  yield dc\n}",
 		"firstabove = (xs, lim) -> {\n  for x <- elems(xs) if x > lim return x\n  0\n}",
 		"picks = (rows) -> for r <- elems(rows) yield firstabove(r, 2)",
 	}
@@ -138,6 +139,12 @@ func c03Contexts(args string) []c03Ctx {
 		}, pair},
 		{"in-generator", func(c string) []string {
 			return []string{"gg = () -> {\n  yield " + c + "\n  yield " + c + "\n}", "{\n  r = []\n  for v <- gg() r = r + [v]\n  r\n}"}
+		}, pair},
+		{"in-generator-after-a-loop-over-a-generator-with-variables-same-statement", func(c string) []string {
+			return []string{"gg = () -> {\n  yield " + c + "\n  yield " + c + "\n}", "{\n  for q <- dirty(7) t = q\n  r = []\n  for v <- gg() r = r + [v]\n  r\n}"}
+		}, pair},
+		{"in-generator-after-two-such-loops-same-statement", func(c string) []string {
+			return []string{"gg = () -> {\n  yield " + c + "\n}", "{\n  for q <- dirty(3) t = q\n  for q, p <- dirty(5), dirty(6) t = q + p\n  r = []\n  for v <- gg() r = r + [v]\n  for v <- gg() r = r + [v]\n  r\n}"}
 		}, pair},
 		{"in-function", func(c string) []string { return []string{"wrap = () -> " + c, "wrap()"} }, same},
 		{"after-loop-same-statement", func(c string) []string {
@@ -228,9 +235,9 @@ func c03Judge(it c03Item) (sig, detail string) {
 	if i := strings.LastIndex(v0, " | "); i >= 0 {
 		vOnly = v0[:i]
 	}
-	if strings.HasPrefix(v0, "ERR") || strings.HasPrefix(v0, "PANIC") || strings.HasPrefix(v0, "fn ") || strings.Contains(v0, "fn") || strings.Contains(v0, "nil") {
-		// the call itself fails, returns a function (never equal to anything) or returns no value (nil, which the
-		// contexts cannot store or compare): not a candidate
+	if strings.HasPrefix(v0, "ERR") || strings.HasPrefix(v0, "PANIC") || strings.HasPrefix(v0, "fn ") || strings.Contains(v0, "fn") || strings.HasPrefix(v0, "nil |") {
+		// the call itself fails, returns a function (never equal to anything) or returns no value at all (nil, which the
+		// contexts cannot store or compare; an array with an empty element is fine): not a candidate
 		return "", ""
 	}
 	ctx := c03Contexts(args)[it.Ctx]
